@@ -67,9 +67,21 @@ def extract(w, anchor, matrix):
   """The write table of `matrix` (a value rooted in a zero allocation) along the path that ends in state `anchor`."""
   za = zero_alloc(matrix)
   if za is None:
-    raise Incomplete("the matrix is not allocated as [[0] * n for _ in range(n)]: %r" % (matrix,))
-  rows, cols, fill, alloc_atom = za
-  tab = Table(rows, cols, fill)
+    # not a zero matrix: the matrix may be given as a list of rows (literal rows, comprehensions, appended rows) that later stores refine
+    ra = _atom(as_poly(matrix)) if isinstance(matrix, (Poly, Seq)) else None
+    seen_ = 0
+    while ra is not None and ra.kind in ("upd", "mut") and seen_ < 10000:
+      ra = _atom(ra.args[0])
+      seen_ += 1
+    if ra is None or ra.kind not in ("seq", "concat", "map", "listrep"):
+      raise Incomplete("the matrix is not allocated as [[0] * n for _ in range(n)]: %r" % (matrix,))
+    rows, cols, fill, alloc_atom = None, None, Poly.const(0), ra
+    tab = Table(rows, cols, fill)
+    tab.base_value = Poly.atom(ra)
+  else:
+    rows, cols, fill, alloc_atom = za
+    tab = Table(rows, cols, fill)
+    tab.base_value = None
   visits = []
   for li in w.loop_info.values():
     for v in li.get("visits", []):
@@ -77,7 +89,14 @@ def extract(w, anchor, matrix):
 
   def is_target(x):
     z = zero_alloc(x)
-    return z is not None and z[3] == alloc_atom
+    if z is not None:
+      return z[3] == alloc_atom
+    a_ = _atom(as_poly(x)) if isinstance(x, (Poly, Seq)) else None
+    n_ = 0
+    while a_ is not None and a_.kind in ("upd", "mut") and n_ < 10000:
+      a_ = _atom(a_.args[0])
+      n_ += 1
+    return a_ is not None and a_ == alloc_atom
 
   pending = {}     # id(target node) -> (op, rhs) of the augmented assignment whose store event follows
 
@@ -101,6 +120,16 @@ def extract(w, anchor, matrix):
         return
       if not (isinstance(v, (Poly, int)) or (isinstance(v, Const) and isinstance(v.v, (int, float)) and not isinstance(v.v, bool))):
         raise Incomplete("non-numeric cell value at line %s: %r" % (line, v))
+      # `m[r][c] = m[r][c] + x` written out: the walker reads the cell of the freshly allocated matrix as row-template[c]
+      if isinstance(v, Poly) and cols is not None:
+        old_cell = sym.mk("idx", sym.mk("listrep", P("seq", fill), cols), as_poly(e.data["index"]))
+        oa = old_cell.as_atom()
+        if oa is not None and oa in v.atoms():
+          rhs = v - old_cell
+          if oa not in rhs.all_atoms():
+            tab.writes.append({"kind": "add", "row": as_poly(e.data["outer_index"]), "col": as_poly(e.data["index"]), "value": rhs, "loops": list(loops), "guards": list(guards), "line": line})
+            return
+          raise Incomplete("the cell stored at line %s depends on its old value in a way that is not an addition" % line)
       tab.writes.append({"kind": "cell", "row": as_poly(e.data["outer_index"]), "col": as_poly(e.data["index"]), "value": Poly.const(v) if isinstance(v, int) else as_poly(v),
                          "loops": list(loops), "guards": list(guards), "line": line})
 
@@ -167,6 +196,20 @@ def extract(w, anchor, matrix):
         raise Incomplete("loop over an unmodelled iterable at line %s" % li["node"].lineno)
     paths = [bp for bp in li["body_paths"] if bp[4] is v]
     head = v["head"]
+    # loop-carried numbers (a running column index `col += 1`, ...): their values are followed pass by pass when the table is instantiated
+    carried = {}
+    for nm in li["modified"]:
+      hv = head.env.get(nm)
+      ha = _atom(hv) if isinstance(hv, Poly) else None
+      if ha is not None and ha.kind == "sym" and ha != _atom(k):
+        carried[nm] = ha
+    pre_map = {ha: v["pre_env"].get(nm) for nm, ha in carried.items()}
+    after_map = {}
+    for nm, ha in carried.items():
+      av = (v.get("after_env") or {}).get(nm)
+      aa = _atom(av) if isinstance(av, Poly) else None
+      if aa is not None and aa.kind == "sym":
+        after_map[aa] = ha
     alts = []
     for kind, val, st, since, _ in paths:
       if kind not in ("fall", "continue"):
@@ -176,10 +219,11 @@ def extract(w, anchor, matrix):
         continue
       newf = list(st.facts[len(head.facts):])
       sub = gather(st, since, len(head.pc), loops + [(k, start, stop, step, v)], guards + newf, depth + 1)
-      alts.append((newf, sub))
-    if not any(sub for _, sub in alts):
+      ends = {ha: st.env.get(nm) for nm, ha in carried.items()}
+      alts.append((newf, sub, ends))
+    if not any(a_[1] for a_ in alts):
       return None
-    return ("loop", k, start, stop, step, alts, li["node"].lineno)
+    return ("loop", k, start, stop, step, alts, li["node"].lineno, pre_map, after_map)
 
   tab.items = gather(anchor, 0, 0, [], [])
   return tab
@@ -264,10 +308,16 @@ def _eval_fact(fc, env):
 
 def instantiate(tab, env):
   """The grid {(r, c): Poly} of the table at the sizes in env ([(atom, int)]); raises Incomplete when an index does not become a number."""
-  R, C = subst_all(tab.rows, env).as_int(), subst_all(tab.cols, env).as_int()
-  if R is None or C is None or R > 64 or C > 64:
-    raise Incomplete("matrix size %r x %r is not a number at the sample lengths" % (tab.rows, tab.cols))
-  grid = [[subst_all(tab.fill, env) for _ in range(C)] for _ in range(R)]
+  if getattr(tab, "base_value", None) is not None:
+    grid = grid_of_value(tab.base_value, env)
+    if grid is None or not grid or any(len(r_) != len(grid[0]) for r_ in grid):
+      raise Incomplete("the matrix value %r is not a rectangular list of rows at the sample lengths" % (tab.base_value,))
+    R, C = len(grid), len(grid[0])
+  else:
+    R, C = subst_all(tab.rows, env).as_int(), subst_all(tab.cols, env).as_int()
+    if R is None or C is None or R > 64 or C > 64:
+      raise Incomplete("matrix size %r x %r is not a number at the sample lengths" % (tab.rows, tab.cols))
+    grid = [[subst_all(tab.fill, env) for _ in range(C)] for _ in range(R)]
 
   def apply(wr, env2):
     r = subst_all(wr["row"], env2).as_int()
@@ -308,24 +358,54 @@ def instantiate(tab, env):
           raise Incomplete("guard %r at line %s is not decided at the sample lengths" % (g, line))
     return True
 
+  def known(x, env_):
+    """the value of a carried number under env_, when it is one"""
+    if isinstance(x, Const) and isinstance(x.v, int) and not isinstance(x.v, bool):
+      return Poly.const(x.v)
+    if isinstance(x, int) and not isinstance(x, bool):
+      return Poly.const(x)
+    if isinstance(x, Poly):
+      y = subst_all(x, env_)
+      return y if y.as_int() is not None else None
+    return None
+
   def run_items(items, env2, ksyms):
+    """applies the items; returns the bindings of loop-exit symbols (carried numbers) the following items may use"""
+    env2 = list(env2)
     for it in items:
       if it[0] == "write":
         apply(it[1], env2)
         continue
-      _, k, start, stop, step, alts, line = it
+      _, k, start, stop, step, alts, line = it[:7]
+      pre_map, after_map = (it[7], it[8]) if len(it) > 8 else ({}, {})
       s0, s1, s2 = (subst_all(x, env2).as_int() for x in (start, stop, step))
       if s0 is None or s1 is None or s2 is None or s2 == 0 or abs(s1 - s0) > 4096:
         raise Incomplete("loop bounds %r, %r, %r at line %s are not numbers at the sample lengths" % (start, stop, step, line))
       ka = k.as_atom()
+      cur = {}
+      for ha, pv in pre_map.items():
+        kv = known(pv, env2)
+        if kv is not None:
+          cur[ha] = kv
       for t_, _val in enumerate(range(s0, s1, s2)):
-        env3 = env2 + [(ka, t_)]
-        taken = [sub for guards, sub in alts if holds(guards, env3, ksyms | {ka}, line)]
-        if len(taken) > 1 and any(taken[0] is not x and _flat(x) != _flat(taken[0]) for x in taken):
+        env3 = [e_ for e_ in env2 if e_[0] not in cur] + [(ka, t_)] + [(ha, cv.as_int()) for ha, cv in cur.items()]
+        taken = [a_ for a_ in alts if holds(a_[0], env3, ksyms | {ka}, line)]
+        if len(taken) > 1 and any(taken[0] is not x and _flat(x[1]) != _flat(taken[0][1]) for x in taken):
           # paths that differ only in conditions the table does not depend on write the same cells
           raise Incomplete("two paths through the loop at line %s are possible for the same pass" % line)
         if taken:
-          run_items(taken[0], env3, ksyms | {ka})
+          env4 = run_items(taken[0][1], env3, ksyms | {ka})
+          ends = taken[0][2] if len(taken[0]) > 2 else {}
+          nxt = {}
+          for ha in list(cur):
+            kv = known(ends.get(ha), env4)
+            if kv is not None:
+              nxt[ha] = kv
+          cur = nxt
+      for aa, ha in after_map.items():
+        if ha in cur:
+          env2 = [e_ for e_ in env2 if e_[0] != aa] + [(aa, cur[ha].as_int())]
+    return env2
 
   run_items(getattr(tab, "items", [("write", wr) for wr in tab.writes]), list(env), set())
   return grid
@@ -338,12 +418,23 @@ def _flat(items):
       wr = it[1]
       out.append((wr["kind"], repr(wr["row"]), repr(wr.get("col")), repr(wr["value"]), wr["line"]))
     else:
-      out.append(("loop", repr(it[1]), repr(it[2]), repr(it[3]), [(_flat(sub)) for _, sub in it[5]]))
+      out.append(("loop", repr(it[1]), repr(it[2]), repr(it[3]), [(_flat(a_[1])) for a_ in it[5]]))
   return out
 
 
-def list_items(v, env):
-  """The elements of a list value (Seq, concat, comprehension over a parameter list / range, repetition) at the sample lengths, or None."""
+def list_items(v, env, unordered_ok=False):
+  """The elements of a list value (Seq, concat, comprehension over a parameter list / range, repetition) at the sample lengths, or None.
+  unordered_ok: a polynomial sum of list values (the walker's form of `L += [..]` on an opaque list) is accepted, in no particular order."""
+  if unordered_ok and isinstance(v, Poly) and v.as_atom() is None and not v.is_const():
+    out = []
+    for k_, c_ in v.t.items():
+      if c_ != 1 or len(k_) != 1 or k_[0][1] != 1:
+        return None
+      part = list_items(Poly.atom(k_[0][0]), env)
+      if part is None:
+        return None
+      out += part
+    return out
   if isinstance(v, Seq):
     out = []
     for x in v.items:
@@ -356,6 +447,14 @@ def list_items(v, env):
     return None
   if a.kind == "seq":
     return [subst_all(as_poly(x), env) for x in a.args]
+  if a.kind == "upd" and len(a.args) == 3:
+    base = list_items(a.args[0], env)
+    i = subst_all(as_poly(a.args[1]), env).as_int()
+    if base is None or i is None or not -len(base) <= i < len(base):
+      return None
+    base = list(base)
+    base[i] = subst_all(as_poly(a.args[2]), env)
+    return base
   if a.kind == "concat":
     l, r = list_items(a.args[0], env), list_items(a.args[1], env)
     return None if l is None or r is None else l + r
@@ -377,6 +476,14 @@ def list_items(v, env):
     if any(x is None for x in args):
       return None
     return [Poly.const(t) for t in range(*args)]
+  if a.kind in ("list", "tuple", "sorted") and len(a.args) == 1:
+    inner = list_items(a.args[0], env)
+    if inner is not None and a.kind == "sorted":
+      ints = [x.as_int() for x in inner]
+      return [Poly.const(x) for x in sorted(ints)] if all(x is not None for x in ints) else None
+    return inner
+  if a.kind == "extcall" and len(a.args) >= 2 and repr(a.args[0]) in ("lit('list')", "lit('tuple')"):
+    return list_items(a.args[1], env)
   return None
 
 
@@ -412,3 +519,18 @@ def diff(grid, spec):
       if not (as_poly(x) - as_poly(y)).is_zero():
         return "entry [%d][%d] is %r, specified %r" % (i, j, x, y)
   return "rows differ"
+
+
+def grid_of_value(val, env):
+  """The grid of a matrix given as a VALUE (a list of rows: literal rows, comprehensions, repetitions, concatenations, rows with single cells set),
+  at the sample lengths; None when some part is not a list of known length."""
+  rows = list_items(val, env)
+  if rows is None:
+    return None
+  grid = []
+  for r in rows:
+    items = list_items(r, env)
+    if items is None:
+      return None
+    grid.append(items)
+  return grid
